@@ -124,6 +124,32 @@ func debugRun(dir, pat string, rest []string) int {
 			fmt.Println("ENGINE-ERROR:", err)
 		}
 	}
+	if os.Getenv("GOVC_NOSOLVE") != "" {
+		// exploration only: obligation count, states, abstractions (no solver runs)
+		fmt.Printf("exec %.1fs, %d obligations generated, %d states\n", time.Since(t0).Seconds(), len(e.obligations), e.stateCounter)
+		var abs []string
+		for a := range e.abstractions {
+			abs = append(abs, a)
+		}
+		sort.Strings(abs)
+		for _, a := range abs {
+			fmt.Println("  abstraction:", a)
+		}
+		return 0
+	}
+	if only := os.Getenv("GOVC_ONLY"); only != "" {
+		// development aid: decide only the obligations whose name contains one of the comma-separated substrings
+		var keep []*Obligation
+		for _, o := range e.obligations {
+			for _, sub := range strings.Split(only, ",") {
+				if strings.Contains(o.Name, sub) {
+					keep = append(keep, o)
+					break
+				}
+			}
+		}
+		e.obligations = keep
+	}
 	workdir := filepath.Join(verifDir, "work", fmt.Sprintf("debug-%d", os.Getpid()))
 	os.MkdirAll(workdir, 0o755)
 	fail := 0
